@@ -13,9 +13,11 @@ for f in "$VERIF_ROOT"/mutants/${1:-*}.patch; do
   ( cd $WT && git apply "$f" && go build ./... ) 2>/dev/null || { echo -e "$b\tDOES-NOT-BUILD\t-" | tee -a "$out"; git -C $WT checkout -q -- .; continue; }
   suite=$(cd $WT && go test -mod=mod -vet=off -count=1 ./... 2>&1 | grep -c "^FAIL\|^--- FAIL")
   git -C $WT checkout -q -- .
-  git -C /repo apply "$f" || { echo -e "$b\tNO-APPLY\t-" | tee -a "$out"; continue; }
+  exec 7>"$VERIF_ROOT/.work/repo.lock"; flock -x 7; export VERIF_REPO_LOCK_HELD=1
+  git -C /repo apply "$f" || { echo -e "$b\tNO-APPLY\t-" | tee -a "$out"; flock -u 7; unset VERIF_REPO_LOCK_HELD; continue; }
   "$VERIF_ROOT/bin/check" "$prop" quick > "$VERIF_ROOT/.work/mut-$b.txt" 2>&1; ec=$?
   git -C /repo checkout -q -- .
+  flock -u 7; unset VERIF_REPO_LOCK_HELD
   kinds=$(grep -A1 "^VIOLATION" "$VERIF_ROOT/.work/mut-$b.txt" | grep kind= | sed 's/ deviations=\([0-9]*\)/@\1/; s/^ *kind=//; s/ scenario=/ in /' | sort -u | head -3 | tr '\n' ';')
   s="suite-passes"; [ "$suite" != "0" ] && s="suite-FAILS($suite)"
   d="MISSED"; [ $ec -eq 1 ] && d="CAUGHT"
